@@ -70,10 +70,11 @@ TBegin ==
      ELSE IF Busy(s) \/ E.i # applied[s] \/ E.i = 0 \/ E.t # log[E.i]
           THEN Mismatch("backup-name", applied[s])
      ELSE IF ~Agrees(E.i, E.dump) THEN Mismatch("backup-request-changed-data", dig[E.i])
-     ELSE IF E.i \in DOMAIN rawAt /\ rawAt[E.i] # E.raw THEN Mismatch("records-differ-at-same-index", rawAt[E.i])
+     ELSE IF E.raw # "" /\ E.i \in DOMAIN rawAt /\ rawAt[E.i] # E.raw THEN Mismatch("records-differ-at-same-index", rawAt[E.i])
      ELSE /\ BackupBegin(s)
           /\ dig'   = Learn(E.i, E.dump)
-          /\ rawAt' = Put(rawAt, E.i, E.raw)
+          \* (a driver that goes through the state machine's GetSnapshot logs no raw digest)
+          /\ rawAt' = IF E.raw = "" THEN rawAt ELSE Put(rawAt, E.i, E.raw)
           /\ UNCHANGED bad
 
 \* WaitReady returned: the engine has fixed its view (assumption) and the apply loop runs
@@ -126,8 +127,8 @@ TRestore ==
           IN IF E.err # "" THEN Mismatch("restore-failed", n)
              ELSE IF ~Known(c.img) \/ dig[c.img] # E.dump
                   THEN Mismatch("restored-data-differ", IF Known(c.img) THEN dig[c.img] ELSE "?")
-             ELSE IF c.img \notin DOMAIN rawAt \/ rawAt[c.img] # E.raw
-                  THEN Mismatch("restored-records-differ", IF c.img \in DOMAIN rawAt THEN rawAt[c.img] ELSE "?")
+             ELSE IF c.img \in DOMAIN rawAt /\ rawAt[c.img] # E.raw
+                  THEN Mismatch("restored-records-differ", rawAt[c.img])
              ELSE Restore(s, E.t, E.i) /\ Keep
 
 TCkDump ==
@@ -138,8 +139,8 @@ TCkDump ==
           IN IF E.err # "" THEN Mismatch("checkpoint-unreadable", n)
              ELSE IF ~Known(c.img) \/ dig[c.img] # E.dump
                   THEN Mismatch("checkpoint-data-changed", IF Known(c.img) THEN dig[c.img] ELSE "?")
-             ELSE IF c.img \notin DOMAIN rawAt \/ rawAt[c.img] # E.raw
-                  THEN Mismatch("checkpoint-records-changed", IF c.img \in DOMAIN rawAt THEN rawAt[c.img] ELSE "?")
+             ELSE IF c.img \in DOMAIN rawAt /\ rawAt[c.img] # E.raw
+                  THEN Mismatch("checkpoint-records-changed", rawAt[c.img])
              ELSE UNCHANGED <<cvars, bad, dig, rawAt>>
 
 TFetch ==
